@@ -905,6 +905,18 @@ def rule_sink(c, prog, g, sreach):
                 if IO_RES.match(inner.get("ty") or ""):
                     c.ok(R, None)
     c.analysed["serializer_reachable_functions"] = len(sreach)
+    # the sink is taken BY VALUE (`writer: W`) and dropped when the serializer returns: a buffering sink (the documented
+    # `BufWriter::new(File::create(..)?)`) is then flushed by its Drop, which swallows the error. The serializer itself must
+    # flush before it reports success.
+    for crate, what in (("rbx_binary", "Serializer::serialize"), ("rbx_xml", "to_writer / encode_internal")):
+        fl = [(fn, x) for fn in lib_named(prog, sreach) if fn.crate == crate and fn.body is not None for x in core.walk_fn(fn)
+              if x.get("k") == "MethodCall" and x["m"] == "flush" and (core.callee_generic(x) or "").endswith("std::io::Write::flush")]
+        inst = f"{crate}|final-flush"
+        propagated = [1 for fn, x in fl if any(core.as_try(t) is not None and any(z is x for z in core.walk(core.as_try(t))) for t in core.walk_fn(fn)) or "map_err" in core.fingerprint(fn.body, 40)]
+        if fl and propagated:
+            c.ok(R, inst)
+        else:
+            c.violation(R, f"{crate}|no-final-flush", f"{crate}: {what} takes the sink by value and returns without flushing it: with a buffering sink passed as the crate documentation shows (`BufWriter::new(File::create(..)?)`), a write failure in the buffered tail is swallowed when the sink is dropped and Ok(()) is returned for a truncated file", "", instance=inst)
 
 
 def run(c, prog):
